@@ -316,6 +316,26 @@ func (c *Check) writeEvidence(nOK, nFail, nKnown, nAdv int, perRule map[string][
 	os.WriteFile(filepath.Join(verifDir(), "evidence", c.ID+".json"), b, 0o644)
 }
 
+// evalStack: the checks currently being evaluated (outermost first); droppedImports counts imports skipped because
+// their source was on the stack.
+var evalStack []string
+var droppedImports int
+
+// runRegistered evaluates check id into c, keeping the evaluation stack; as a shared-rule source a panic becomes an
+// undecided obligation of the source.
+func runRegistered(id string, c *Check, asSource bool) {
+	evalStack = append(evalStack, id)
+	defer func() { evalStack = evalStack[:len(evalStack)-1] }()
+	if asSource {
+		defer func() {
+			if r := recover(); r != nil {
+				c.Undecided("E0/panic", "analyser", "-", fmt.Sprintf("analyser panic in shared rule source %s: %v", id, r))
+			}
+		}()
+	}
+	registry[id](c)
+}
+
 // subCheckCache holds the obligations of checks evaluated as a source of shared rules (per loaded program).
 var subCheckCache = map[string][]Obligation{}
 
@@ -327,19 +347,25 @@ func importObs(c *Check, from, fromRule, as string, keep func(o Obligation) bool
 	ck := fmt.Sprintf("%p|%s|%s", c.P, from, c.Tier)
 	obs, ok := subCheckCache[ck]
 	if !ok {
+		// Imports may form a cycle (A takes a rule of B, B one of C, C one of A). A check that is already being
+		// evaluated further up is not entered again: the nested evaluation only exists to supply ITS OWN rules to its
+		// importer, so the import it would have made is dropped there — and a result computed with a dropped import
+		// is used once but never cached (the next importer evaluates the source in full).
+		for _, id := range evalStack {
+			if id == from {
+				droppedImports++
+				return 0
+			}
+		}
 		sub := NewCheck(from, c.Tier, c.P)
 		saved := walkerTruncations
-		func() {
-			defer func() {
-				if r := recover(); r != nil {
-					sub.Undecided("E0/panic", "analyser", "-", fmt.Sprintf("analyser panic in shared rule source %s: %v", from, r))
-				}
-			}()
-			registry[from](sub)
-		}()
+		before := droppedImports
+		runRegistered(from, sub, true)
 		walkerTruncations = saved
 		obs = sub.Obs
-		subCheckCache[ck] = obs
+		if droppedImports == before {
+			subCheckCache[ck] = obs
+		}
 	}
 	n := 0
 	for _, o := range obs {
